@@ -39,6 +39,8 @@ BLOCKS = {
     # one sweep and accepts a state that the solver's own tolerance then moves by several per cent.
     'within-period-slow': ("x = 0.8*x + 0.2*(0.5*LAG_x + D)\nLAG_x = x(k-1)\nErr_Tolerance = 1e-3", {'x': {'x': 0.5, '@iter': (0.8, 1e-3)}, 'LAG_x': {'x': 1.0}}, ['x', 'LAG_x'],
                            lambda sy, ds: [sy['LAG_x'] == sy['x'], sy['x'] >= 10, ds[0] * 2 >= sy['x'] * symx.rat(0.9), ds[0] * 2 <= sy['x'] * symx.rat(1.1)]),
+    # a search that fails WHILE STEPPING (persistent division by zero when the frozen exogenous level is 0): the solver it initialises must be left untouched on that path too
+    'failing-search': ("x = 0.5*LAG_x + D\nz = 1/D\nLAG_x = x(k-1)", {'x': {'x': 0.5, '@self': 0.5}, 'LAG_x': {'x': 1.0}}, ['x', 'LAG_x']),
     'deco-balance': ("x = 0.5*LAG_x + D\nbal = 2*D - x\nsav = x - LAG_x\nLAG_x = x(k-1)",
                      {'x': {'x': 0.5, '@self': 0.5}, 'LAG_x': {'x': 1.0}, 'bal': {'x': 0.5, '@self': 0.5}, 'sav': {'x': 0.5, '@self': 0.5}}, ['x', 'LAG_x']),
 }
